@@ -81,6 +81,9 @@ struct Shared {
     /// called when the actor takes a frame (false) or the end of the stream (true) out of `inq`
     on_read: Option<Box<dyn FnMut(bool) + Send>>,
     eof_seen: bool,
+    /// poll_ready answered Ready and the frame has not been handed over yet: a stall requested
+    /// now would come too late for this frame (mode B skips such a stall)
+    granted: bool,
 }
 
 #[derive(Clone, Default)]
@@ -178,7 +181,7 @@ impl n0_future::Stream for MemStream {
 }
 
 impl MemStream {
-    fn poll_writable(&self, cx: &mut Context<'_>) -> Poll<Result<(), AnyError>> {
+    fn poll_writable(&self, cx: &mut Context<'_>, grant: bool) -> Poll<Result<(), AnyError>> {
         ACTIVITY.fetch_add(1, Ordering::SeqCst);
         let mut s = self.0.lock().unwrap();
         if s.broken {
@@ -188,6 +191,9 @@ impl MemStream {
             s.tx_waker = Some(cx.waker().clone());
             return Poll::Pending;
         }
+        if grant {
+            s.granted = true;
+        }
         Poll::Ready(Ok(()))
     }
 }
@@ -195,7 +201,7 @@ impl MemStream {
 impl n0_future::Sink<Bytes> for MemStream {
     type Error = AnyError;
     fn poll_ready(self: Pin<&mut Self>, cx: &mut Context<'_>) -> Poll<Result<(), AnyError>> {
-        self.poll_writable(cx)
+        self.poll_writable(cx, true)
     }
     fn start_send(self: Pin<&mut Self>, item: Bytes) -> Result<(), AnyError> {
         ACTIVITY.fetch_add(1, Ordering::SeqCst);
@@ -203,6 +209,7 @@ impl n0_future::Sink<Bytes> for MemStream {
         if s.broken {
             return Err(n0_error::anyerr!("transport broken (injected)"));
         }
+        s.granted = false;
         if let Some(f) = s.on_frame.as_mut() {
             f(&item);
         }
@@ -210,10 +217,10 @@ impl n0_future::Sink<Bytes> for MemStream {
         Ok(())
     }
     fn poll_flush(self: Pin<&mut Self>, cx: &mut Context<'_>) -> Poll<Result<(), AnyError>> {
-        self.poll_writable(cx)
+        self.poll_writable(cx, false)
     }
     fn poll_close(self: Pin<&mut Self>, cx: &mut Context<'_>) -> Poll<Result<(), AnyError>> {
-        self.poll_writable(cx)
+        self.poll_writable(cx, false)
     }
 }
 
@@ -776,6 +783,9 @@ mod random {
                 let on = roll < 87;
                 let w = {
                     let mut s = live[&name].conn.h.0.lock().unwrap();
+                    if on && s.granted {
+                        continue; // the sink has just promised to take a frame
+                    }
                     s.stalled = on;
                     log.lock().unwrap().push(Raw::Stall { c: name.clone(), on });
                     s.tx_waker.take()
